@@ -18,6 +18,8 @@ def use_repo():
     if REPO not in sys.path:
         sys.path.insert(0, REPO)
     os.environ.setdefault("KAIRA_VERIF", "1")
+    import torch
+    torch.set_num_threads(int(os.environ.get("KV_TORCH_THREADS", "1")))   # thousands of tiny tensor ops: threads only add contention
     import kaira  # noqa
     src = os.path.realpath(os.path.dirname(kaira.__file__))
     if not src.startswith(os.path.realpath(REPO)):
@@ -69,7 +71,8 @@ def finding_for(v, findings):
     for f in findings:
         if f.get("status") != "known":
             continue
-        if f["property"] != v.prop or f["component"] != v.component:
+        comp = f["component"]
+        if f["property"] != v.prop or not (comp == v.component or (isinstance(comp, list) and v.component in comp)):
             continue
         cl = f["clause"]
         if not (cl == v.clause or (isinstance(cl, list) and v.clause in cl)):
@@ -145,7 +148,7 @@ class Run:
                 new.setdefault((v.component, v.clause, json.dumps(v.config, sort_keys=True)), []).append(v)
         for fid, (f, n, v) in sorted(known.items()):
             print("KNOWN-FINDING: property=%s %s [%s] %s (%d case(s) this run; e.g. %s)" % (
-                self.prop, f["component"], fid, f["description"], n,
+                self.prop, f["component"] if isinstance(f["component"], str) else "/".join(f["component"]), fid, f["description"], n,
                 json.dumps(v.witness, sort_keys=True)[:160]))
         listed = [f for f in findings if f["property"] == self.prop and f.get("status") == "known"]
         for f in listed:
